@@ -6,10 +6,10 @@ for d in sorted(glob.glob('/verif/seeded/*/')):
     m = json.load(open(d + 'meta.json'))
     patch = open(d + 'patch.diff').read()
     files = sorted(set(l.split()[1][2:] for l in patch.split('\n') if l.startswith('+++ ')))
-    keys = m['checks'][m['property']]['violation_keys']
+    keys = m.get('checks', {}).get(m['property'], {}).get('violation_keys', [])
     k = [x.split(' ')[0].replace('key=', '') for x in keys][:2]
     rows.append('| %s | %s | %s | %s |' % (os.path.basename(d.rstrip('/')), ','.join(f.replace('geomdl/', '') for f in files),
-                                           ' '.join(m['caught_by']) or '**MISSED**', ', '.join('`%s`' % x for x in k)))
+                                           ' '.join(m['caught_by']) or ('**MISSED**' if m.get('confirmed', True) else '(no longer a defect: neutralised by a fix)'), ', '.join('`%s`' % x for x in k)))
 if '--write' in sys.argv:
     s = open('/verif/DESIGN.md').read()
     a = s.index('| seeded | file | caught by | first violation keys |')
